@@ -1,0 +1,39 @@
+//go:build verif
+
+package goag
+
+// Contracts of goag.go (Layer G). Comment-only file: with or without the
+// `verif` build tag the compiled package is byte-identical. goagvc
+// (/verif/engine) parses the //@ lines and generates verification conditions
+// from go/ssa of the functions named here.
+//
+// Ghost state: fs : path -> none | some(content)   (DESIGN.md §4.19)
+//   content(bs)   bytes held by a []byte          strbytes(s)  bytes of a string
+//   fmtOK(b)      imports.Process accepts b       fmtOut(b)    its formatted form
+//   wr(b)         = fmtOK(b) ? fmtOut(b) : b      freshWrite(x): x == some(fmtOut(_))
+//   pathJoin(d,n) = path.Join(d, n)               rendered(f)  = f.Render()
+
+//@ func WriteToFile(bs []byte, filepath string) error
+//@   option props=C19
+//@   ensures err == nil ==> fs[filepath] == some(wr(content(bs)))
+//@   ensures forallstr q: q != filepath ==> fs[q] == old(fs[q])
+//@   ensures[C01] err == nil ==> fmtOK(content(bs))
+
+//@ func RenderToFile(filepath string, f generator.GoFile) error
+//@   option props=C19
+//@   ensures err == nil ==> fs[filepath] == some(wr(strbytes(rendered(f))))
+//@   ensures forallstr q: q != filepath ==> fs[q] == old(fs[q])
+//@   ensures[C01] err == nil ==> fmtOK(strbytes(rendered(f)))
+
+//@ func (Generator).Generate(openapi3Spec *openapi3.Swagger, outDir string, packageName string, specRaw []byte, baseFilename string, basePath string, cfg generator.Config) error
+//@   option props=C19
+//@   ensures err == nil && !g.GenClient ==> fs[pathJoin(outDir, "client.go")] == none
+//@   ensures err == nil && g.GenClient ==> freshWrite(fs[pathJoin(outDir, "client.go")])
+//@   ensures err == nil && !g.GenAPIHandler ==> fs[pathJoin(outDir, "handler.go")] == none
+//@   ensures err == nil && !g.GenAPIHandler ==> fs[pathJoin(outDir, "router.go")] == none
+//@   ensures err == nil && !g.GenAPIHandler ==> fs[pathJoin(outDir, "spec_file.go")] == none
+//@   ensures err == nil && g.GenAPIHandler ==> freshWrite(fs[pathJoin(outDir, "handler.go")])
+//@   ensures err == nil && g.GenAPIHandler ==> freshWrite(fs[pathJoin(outDir, "router.go")])
+//@   ensures err == nil && g.GenAPIHandler ==> freshWrite(fs[pathJoin(outDir, "spec_file.go")])
+//@   ensures err == nil ==> fs[pathJoin(outDir, "components.go")] == none || freshWrite(fs[pathJoin(outDir, "components.go")])
+//@   ensures forallstr q: q != pathJoin(outDir, "client.go") && q != pathJoin(outDir, "handler.go") && q != pathJoin(outDir, "router.go") && q != pathJoin(outDir, "spec_file.go") && q != pathJoin(outDir, "components.go") ==> fs[q] == old(fs[q])
